@@ -502,6 +502,7 @@ static bool replayCase(const J &c, long long caseNo, long long &steps) {
 static int modeReplay() {
     std::string line;
     long long cases = 0, fails = 0, crashes = 0;
+    std::map<std::string, long long> hist;
     while (std::getline(std::cin, line)) {
         if (line.size() > 1 && line[0] == '"' && line[1] == '{') {   // TLC's PrintT quotes the JSON text
             try { line = jparse(line).s; }
@@ -513,6 +514,15 @@ static int modeReplay() {
         }
         if (line.empty() || line[0] != '{') continue;
         ++cases;
+        {   // histogram of (call, expected outcome): which actions and which refusals this run exercised (anti-vacuity evidence)
+            size_t a = line.find("\"op\":{");
+            size_t b = a == std::string::npos ? a : line.find("\"op\":\"", a + 5);
+            size_t c = a == std::string::npos ? a : line.find("\"out\":\"", a);
+            if (b != std::string::npos && c != std::string::npos) {
+                size_t be = line.find('"', b + 6), ce = line.find('"', c + 7);
+                ++hist[line.substr(b + 6, be - b - 6) + "/" + line.substr(c + 7, ce - c - 7)];
+            }
+        }
         pid_t pid = fork();
         if (pid == 0) {
             alarm(20);
@@ -537,7 +547,9 @@ static int modeReplay() {
         std::string s; r.dump(s); s += '\n';
         ssize_t wr = write(1, s.data(), s.size()); (void)wr;
     }
-    J r = J::obj().set("summary", J(1)).set("cases", J(cases)).set("fail", J(fails)).set("crashes", J(crashes));
+    J h = J::obj();
+    for (std::map<std::string, long long>::iterator it = hist.begin(); it != hist.end(); ++it) h.set(it->first, J(it->second));
+    J r = J::obj().set("summary", J(1)).set("cases", J(cases)).set("fail", J(fails)).set("crashes", J(crashes)).set("hist", h);
     std::string s; r.dump(s); s += '\n';
     ssize_t wr = write(1, s.data(), s.size()); (void)wr;
     return 0;
